@@ -2,39 +2,68 @@
 C20 — every output format renders the same route, with geometry in edge order.
 
 Model: `Compass/Model/Output.lean` (`TraversalOutputFormat::{generate_route_output, generate_tree_output}`,
-`traversal_ops`, `concat_linestrings`, `TraversalPlugin::process`, `UUIDOutputPlugin::process`, the summary
-counts and `apply_output_processing`), tied to the Rust code by the bit-exact correspondence run of
-`harness/src/c20.rs` (all five formats parsed back from what the real code printed).
+`traversal_ops`, `concat_linestrings`, `geometry_to_wkb_string`, `TraversalPlugin::process`,
+`UUIDOutputPlugin::process`, the summary counts, `apply_output_processing`, the table loaders and the builders),
+tied to the Rust code by the correspondence run of `harness/src/c20.rs`.
 
-Clauses of the property and where they are proved, for every route, tree, geometry table and format:
- * the edge-id list, the JSON records and the GeoJSON features follow the returned edge sequence
-   (`edge_id_list_is_route_edges`, `json_records_in_route_order`, `geojson_features_in_route_order`,
-   `route_edge_sequence`, `formats_agree_on_edge_sequence`);
- * the WKT / WKB / GeoJSON geometry is the concatenation of the stored geometries in edge order, joint points
-   included (`route_geometry_is_concatenation`, `route_geometry`, `route_geometry_keeps_every_point`,
-   `formats_agree_on_geometry`);
- * a missing geometry is an error, never a shorter or shifted geometry (`missing_geometry_is_error`,
-   `geometry_rendered_iff_all_stored`, `file_table_rows`, `tree_missing_geometry_is_error`,
+WHAT THE THEOREMS ARE ABOUT.  The model's outputs are *structured values*: an edge-id list, a list of traversal
+records, a list of features `{id, properties, geometry}`, a point list (WKT), a point list **plus the hex string**
+(WKB).  Points, costs and state variables are opaque bit patterns.  Theorems therefore speak about the geometry
+that is handed to the serialisers, and — for WKB only — about the first-party hex text.
+
+Clauses of the property and the theorems that carry them (every route, tree, geometry table, format, id table):
+ * the edge-id list, the JSON records and the GeoJSON features follow the returned edge sequence:
+   `geojson_features_in_route_order`, `route_edge_sequence`, `formats_agree_on_edge_sequence`,
+   `id_and_geometry_formats_agree` (`edge_id_list_is_route_edges`, `json_records_in_route_order` restate the
+   one-line Rust arms);
+ * the geometry handed to the WKT / WKB / GeoJSON serialisers is the concatenation of the stored geometries in
+   edge order, joint points included: `route_geometry_is_concatenation`, `route_geometry`,
+   `route_geometry_keeps_every_point`, `formats_agree_on_geometry` (between WKT and WKB this agreement holds by
+   construction — both arms call `create_route_linestring`; its content is the agreement with the GeoJSON
+   features); the WKB hex text decodes to exactly the bytes of that geometry: `wkb_text_is_hex_of_geometry`,
+   `hex_text_decodes`, `wkb_text_length`;
+ * a missing geometry is an error, never a shorter or shifted geometry: `missing_geometry_is_error`,
+   `geometry_rendered_iff_all_stored`, `tree_missing_geometry_is_error`, `tree_geometry_rendered_iff_all_stored`,
    `response_error_on_missing_geometry`, `response_error_on_missing_tree_geometry`,
-   `response_has_route_or_is_error`, `response_route_is_rendering`, `response_tree_is_rendering`);
- * tree outputs have exactly one entry per branch, independent of the hash map's iteration order
-   (`tree_output_one_entry_per_branch`, `tree_output_edge_ids`, `tree_output_lines`,
-   `tree_output_order_independent`);
- * the attached identifiers are the stored ones (`uuid_attached_are_stored`, `uuid_error_iff`,
-   `uuid_never_panics`, `response_uuids_are_stored`, `response_ids_and_counts`);
- * the summary counts are the sizes of what is rendered (`summary_counts`, `summary_counts_single`,
-   `summary_process_on_object`);
- * the lookup tables are the files, row for row, or the build fails — malformed rows are never skipped
-   (`geometry_file_loads_all_rows_or_fails`, `geometry_file_bad_row_is_error`, `traversal_from_file_table`,
-   `uuid_from_file_table`, `uuid_from_file_error_iff`), the builders accept exactly the five format names
-   (`format_names_roundtrip`, `format_names_distinct`, `format_param`, `build_traversal_ok`, `build_uuid_ok`);
- * direct `process` calls: untouched after a failed search, equal to the pipeline model on an object, panic only
-   on a non-object that is written to (`failed_search_leaves_output`, `traversal_process_on_object`,
-   `traversal_process_on_panic`, `summary_process_on_panic_iff`, `add_od_uuids_result`).
-No defect of the code against C20 was found, so there is no `_counterexample` theorem.  Two behaviours outside the
-literal statement are recorded as theorems because they turn a whole response into an error response:
-`empty_route_is_error_response` (origin = destination with a route format configured) and the uuid plugin's
-`missingField "destination_vertex"` outcome for destination-less queries (see the examples of section 4).
+   `response_has_route_or_is_error`, `response_route_is_rendering`, `response_tree_is_rendering`;
+ * tree outputs have exactly one entry per branch, independent of the hash map's iteration order:
+   `tree_output_one_entry_per_branch`, `tree_output_edge_ids`, `tree_output_lines`,
+   `tree_output_order_independent`;
+ * the attached identifiers are the stored ones: `uuid_attached_are_stored`, `uuid_error_iff`,
+   `uuid_never_panics`, `uuid_direct_matches_pipeline`, `response_uuids_are_stored`, `response_ids_and_counts`;
+ * summary counts: `summary_counts_single`, `summary_process_on_object` (`summary_counts` restates the model).
+
+MODELLED RATHER THAN VERIFIED (no theorem has content about these; the evidence is the differential run, which
+compares what the real code printed with the model, textually):
+ * WKT text: `wkt_string()` of the `wkt` crate and its `f32` printing.  The harness parses the real string back
+   (the `wkt` crate and a second tiny parser must agree) and compares points bit for bit.
+ * GeoJSON text: the `geojson` crate's `Feature` serialisation and `serde_json`'s `f64` printing; parsed back the
+   same way.  JSON records: `serde` derive output, parsed back.
+ * WKB bytes: the layout of `wkb::geom_to_wkb` v0.7.1 (`wkbLineString`, `wkbMultiLineString`) and the `f32 → f64`
+   widening (`widenF32`) are written down in the model and compared **as exact hex text** with the real output;
+   that `geom_to_wkb` never fails on a (Multi)LineString written into a `Vec` is read off its source
+   (`geomToWkb` is total; the `map_err` arm of `geometry_to_wkb_string` is in the model and unreachable).
+   `geometry_rendered_iff_all_stored` for `wkb` rests on that.
+ * Lookup-table files (section 7): a file is modelled as `{readable, intact, rows}` with every row already
+   classified by the third-party WKT parser as "denotes this linestring" or "rejected".  What the theorems of
+   section 7 add is only the first-party part — `read_raw_file` keeps every row at its index and aborts on the
+   first failure, the plugin's table is that list.  Line splitting (`BufRead::lines`, CRLF), gzip decoding, the
+   WKT grammar and which texts it rejects are evidenced by the differential run (plain / CRLF / gzip files, 14
+   kinds of rejected row, missing file, gzip cut off in the middle, non-UTF-8 line) and by nothing else.
+ * `construct_route_output` also serialises the last state and the cost; of their failures only
+   `StateIndexOutOfBounds` is modelled (`costSlots`).  `StateVariableNotFound` and the `serialize_cost_info`
+   errors are internal inconsistencies of a `CostModel` that `CostModel::new` cannot produce; they would only add
+   error responses (every response theorem has the form "if ok then …" or "… ⇒ error").
+ * serde's deserialisation of the format parameter is modelled from its documented externally-tagged rule and
+   checked differentially (`fmtParam`).
+
+No defect of the code against the literal statement of C20 was found, so there is no `_counterexample` theorem.
+Two behaviours turn a whole response into an error response although nothing is wrong with the route or tree;
+they are outside the literal statement (nothing wrong is ever attached or rendered) and are recorded as theorems
+and in the manifest text: `empty_route_is_error_response` (origin = destination with a route format configured)
+and `destinationless_query_with_uuid_plugin_is_error_response` (a tree-only query through a pipeline that contains
+the uuid plugin never delivers its tree).  One defect outside the statement was found and repaired:
+`fs_utils::line_count` never returned on a gzip table cut off in the middle (`known_findings.txt`).
 -/
 import Compass.Proofs.Output
 
@@ -49,13 +78,15 @@ def usesGeometry : Fmt → Bool
 
 /-! ### 1. every format follows the returned edge sequence -/
 
+/-- restates the model line (the Rust arm is `route.iter().map(|e| e.edge_id).collect()`); its assurance is the
+correspondence run -/
 theorem edge_id_list_is_route_edges (g : Geoms) (r : List EdgeTraversal) :
     generateRouteOutput g .edgeId r = .ok (.edgeIds (r.map (·.edge))) := rfl
 
+/-- restates the model line (the Rust arm is `serde_json::to_value(route)`): the records are the traversals
+themselves, in order -/
 theorem json_records_in_route_order (g : Geoms) (r : List EdgeTraversal) :
-    ∃ rs, generateRouteOutput g .json r = .ok (.records rs) ∧ rs = r ∧ rs.length = r.length ∧
-      ∀ (i : Nat) (hr : i < r.length) (hs : i < rs.length), rs[i].edge = r[i].edge :=
-  ⟨r, rfl, rfl, rfl, fun _ _ _ => rfl⟩
+    generateRouteOutput g .json r = .ok (.records r) := rfl
 
 theorem geojson_features_in_route_order (g : Geoms) (r : List EdgeTraversal) (o : RouteOut)
     (h : generateRouteOutput g .geoJson r = .ok o) :
@@ -122,12 +153,15 @@ example : ∃ g r s, generateRouteOutput g .geoJson r = .ok s ∧ s.edgeSeq? = s
 
 /-! ### 2. the route geometry is the concatenation of the stored geometries, in edge order -/
 
-/-- when every edge of the route has a stored geometry `geom e`, the three geometry formats render exactly
-`geom e₁ ++ geom e₂ ++ …` (WKT, WKB) resp. one feature per edge carrying `geom eᵢ` (GeoJSON) -/
+/-- when every edge of the route has a stored geometry `geom e`, the three geometry formats hand exactly
+`geom e₁ ++ geom e₂ ++ …` to the WKT / WKB serialiser, resp. one feature per edge carrying `geom eᵢ` to the
+GeoJSON serialiser; the WKB string is the hex text of the WKB bytes of that concatenation.  (What the third-party
+serialisers make of a point list is outside Lean, see the file header.) -/
 theorem route_geometry_is_concatenation (g : Geoms) (geom : Nat → Line) (r : List EdgeTraversal)
     (hst : ∀ t ∈ r, g t.edge = some (geom t.edge)) :
     generateRouteOutput g .wkt r = .ok (.wkt (r.flatMap fun t => geom t.edge)) ∧
-    generateRouteOutput g .wkb r = .ok (.wkb (r.flatMap fun t => geom t.edge)) ∧
+    generateRouteOutput g .wkb r =
+      .ok (.wkb (r.flatMap fun t => geom t.edge) (hexText (wkbLineString (r.flatMap fun t => geom t.edge)))) ∧
     generateRouteOutput g .geoJson r =
       .ok (.features (r.map fun t => { id := t.edge, props := t, geom := geom t.edge })) := by
   have hall : allStored g (r.map (·.edge)) = true := by
@@ -201,7 +235,10 @@ theorem route_geometry (g : Geoms) (f : Fmt) (r : List EdgeTraversal) (o : Route
       rw [← hl, List.flatMap_def]
     · simp [hst] at h
 
-/-- pairwise: WKT, WKB and the features of GeoJSON describe the same point sequence -/
+/-- pairwise: WKT, WKB and the features of GeoJSON are given the same point sequence.  Between WKT and WKB this
+holds by construction (both Rust arms call `create_route_linestring`, both model arms carry the same `Line`); the
+content of the theorem is the agreement of either with the flattened GeoJSON features, which come from a different
+function (`create_route_geojson`). -/
 theorem formats_agree_on_geometry (g : Geoms) (f1 f2 : Fmt) (r : List EdgeTraversal) (o1 o2 : RouteOut)
     (l1 l2 : Line) (h1 : generateRouteOutput g f1 r = .ok o1) (h2 : generateRouteOutput g f2 r = .ok o2)
     (e1 : o1.geometry? = some l1) (e2 : o2.geometry? = some l2) : l1 = l2 := by
@@ -215,6 +252,24 @@ theorem formats_agree_on_geometry (g : Geoms) (f1 f2 : Fmt) (r : List EdgeTraver
     rw [a] at b
     exact Option.some.inj b
   rw [this]
+
+/-- the cross-group corollary: the edge sequence shown by an id format (edge_id, json, geo_json — even over a
+different table `g'`) and the geometry handed to a geometry format (wkt, wkb, geo_json) describe the same route:
+the geometry is the flattening of one stored linestring per listed edge id, in the listed order -/
+theorem id_and_geometry_formats_agree (g g' : Geoms) (f1 f2 : Fmt) (r : List EdgeTraversal) (o1 o2 : RouteOut)
+    (s : List Nat) (l : Line)
+    (h1 : generateRouteOutput g' f1 r = .ok o1) (h2 : generateRouteOutput g f2 r = .ok o2)
+    (e1 : o1.edgeSeq? = some s) (e2 : o2.geometry? = some l) :
+    ∃ ls : List Line, ls.length = s.length ∧
+      (∀ (i : Nat) (hs : i < s.length) (hl : i < ls.length), g s[i] = some ls[i]) ∧ l = ls.flatten := by
+  have hs := route_edge_sequence g' f1 r o1 s h1 e1
+  obtain ⟨ls, hn, hg, hl⟩ := route_geometry g f2 r o2 l h2 e2
+  subst hs
+  refine ⟨ls, by simpa using hn, ?_, hl⟩
+  intro i hi hli
+  have hi' : i < r.length := by simpa using hi
+  have := hg i hi' hli
+  simpa using this
 
 /-- nothing is dropped at the joints: the rendered linestring has as many points as the stored geometries
 together (a vertex shared by two consecutive edges appears twice, exactly as stored) -/
@@ -237,7 +292,9 @@ theorem missing_geometry_is_error (g : Geoms) (f : Fmt) (r : List EdgeTraversal)
   | wkt => simp [generateRouteOutput, createRouteLinestring_eq, hall]
   | wkb => simp [generateRouteOutput, createRouteLinestring_eq, hall]
 
-/-- exact characterisation: a geometry format renders something iff every edge of the route has a row -/
+/-- exact characterisation: a geometry format renders something iff every edge of the route has a row.  For
+`wkb` the "if" direction uses that `wkb::geom_to_wkb` cannot fail on a linestring (`geomToWkb` is total in the
+model; read off the crate's source, not proved) -/
 theorem geometry_rendered_iff_all_stored (g : Geoms) (f : Fmt) (r : List EdgeTraversal) (hf : usesGeometry f = true) :
     (∃ o, generateRouteOutput g f r = .ok o) ↔ ∀ t ∈ r, ∃ l, g t.edge = some l := by
   constructor
@@ -261,13 +318,45 @@ theorem geometry_rendered_iff_all_stored (g : Geoms) (f : Fmt) (r : List EdgeTra
     | wkt => exact ⟨_, a⟩
     | wkb => exact ⟨_, b⟩
 
-/-- the table read from the geometry file (one WKT row per edge id): the rows that are missing are exactly the
-edge ids at or beyond the number of rows, and row `e` is the geometry of edge `e` -/
+/-- unfolds `tableOf` (`geoms.get(edge_id.0)` on the boxed slice read from the file): the rows that are missing
+are exactly the edge ids at or beyond the number of rows, and row `e` is the geometry of edge `e` -/
 theorem file_table_rows (rows : List Line) (e : Nat) :
     (tableOf rows e = none ↔ rows.length ≤ e) ∧ ∀ (h : e < rows.length), tableOf rows e = some rows[e] := by
   constructor
   · simp [tableOf]
   · intro h; simp [tableOf, h]
+
+/-! #### the WKB text (first-party hex encoder over the modelled third-party byte layout) -/
+
+/-- the string stored for the `wkb` format is the hex text of the WKB bytes of the very linestring that
+`create_route_linestring` produced (no other geometry, nothing re-ordered in between) -/
+theorem wkb_text_is_hex_of_geometry (g : Geoms) (r : List EdgeTraversal) (o : RouteOut)
+    (h : generateRouteOutput g .wkb r = .ok o) :
+    ∃ l, createRouteLinestring g r = .ok l ∧ o = .wkb l (hexText (wkbLineString l)) := by
+  simp only [generateRouteOutput] at h
+  cases hc : createRouteLinestring g r with
+  | error x => simp [hc] at h
+  | ok l =>
+    simp only [hc, geometryToWkbString_lineString] at h
+    injection h with h
+    exact ⟨l, rfl, h.symm⟩
+
+/-- the hex encoder loses nothing: reading the text two upper-case digits at a time gives the bytes back (so the
+text determines the WKB bytes), for the route linestring and for the tree multilinestring -/
+theorem hex_text_decodes (l : Line) (ls : List Line) :
+    unhexChars (hexChars (wkbLineString l)) = some (wkbLineString l) ∧
+    unhexChars (hexChars (wkbMultiLineString ls)) = some (wkbMultiLineString ls) :=
+  ⟨unhexChars_hexChars _ (wkbLineString_lt l), unhexChars_hexChars _ (wkbMultiLineString_lt ls)⟩
+
+/-- shape of the text: 9 header bytes and 16 bytes per point, two characters each — every point of the
+concatenation (joint points included) is in the text -/
+theorem wkb_text_length (l : Line) : (hexChars (wkbLineString l)).length = 2 * (9 + 16 * l.length) := by
+  rw [hexChars_length, wkbLineString_length]
+
+example : hexChars (wkbLineString []) = "010200000000000000".toList := by decide
+-- 1.0f32 = 0x3F800000 widens to 0x3FF0000000000000, -2.0f32 = 0xC0000000 to 0xC000000000000000
+example : hexChars (wkbLineString [⟨0x3F800000, 0xC0000000⟩]) =
+    "010200000001000000000000000000F03F00000000000000C0".toList := by decide
 
 -- non-vacuity: a three-edge route with a repeated edge; a route whose middle edge has no row
 example : generateRouteOutput (tableOf [[⟨1, 2⟩, ⟨3, 4⟩], [⟨3, 4⟩, ⟨7, 8⟩, ⟨9, 10⟩]]) .wkt
@@ -380,6 +469,28 @@ theorem tree_missing_geometry_is_error (g : Geoms) (f : Fmt) (t : Tree) (i : Nat
   | geoJson => simp [hall]
   | wkt => simp [hall]
   | wkb => simp [hall]
+
+/-- exact characterisation for trees, as for routes: a geometry format renders a tree iff every branch edge has a
+row (same caveat for `wkb` as in `geometry_rendered_iff_all_stored`: `geom_to_wkb` is taken not to fail) -/
+theorem tree_geometry_rendered_iff_all_stored (g : Geoms) (f : Fmt) (t : Tree) (hf : usesGeometry f = true) :
+    (∃ o, generateTreeOutput g f t = .ok o) ↔ ∀ kv ∈ t, ∃ l, g kv.2.et.edge = some l := by
+  constructor
+  · rintro ⟨o, ho⟩ kv hkv
+    cases hg : g kv.2.et.edge with
+    | some l => exact ⟨l, rfl⟩
+    | none =>
+      obtain ⟨i, hi, rfl⟩ := List.getElem_of_mem hkv
+      rw [tree_missing_geometry_is_error g f t i hi hg hf] at ho
+      cases ho
+  · intro h
+    have hall : allStored g (treeIds t) = true := by
+      rw [allStored_iff]
+      intro e he
+      simp only [treeIds, List.mem_map] at he
+      obtain ⟨kv, hkv, rfl⟩ := he
+      exact h kv hkv
+    rw [generateTreeOutput_eq]
+    cases f <;> simp [hall]
 
 /-- the hash map's iteration order is unspecified: for any two orders of the same branches the outcome is the
 same error, or two outputs with the same number of entries whose ids / linestrings are permutations of each
@@ -595,8 +706,52 @@ theorem uuid_never_panics (u : Uuids) (ok : Bool) (out : Json) (h : uuidProcess 
         | none => simp [hg, ho, hd] at h
         | some du => simp [hg, ho, hd, Json.indexAssign] at h
 
-/-- a failed search leaves the output alone -/
+/-- a failed search leaves the output alone (restates the `Err(_) => Ok(())` arm) -/
 theorem uuid_failed_search_untouched (u : Uuids) (out : Json) : uuidProcess u false out = .ok out := rfl
+
+/-- the direct call and the pipeline step are the same lookup: on the output object the pipeline works on
+(`request` stored under its key, whatever other keys are present) `process` succeeds exactly when the pipeline
+step does, with the same two identifiers, and fails with the same error -/
+theorem uuid_direct_matches_pipeline (u : Uuids) (req : Json) (res : SearchResult) (r : Resp)
+    (rest : List (String × Json)) :
+    (∀ x, pluginStep req res (.uuid u) r = .error x →
+      (match uuidProcess u true (.obj (("request", req) :: rest)) with | .err y => y = x | _ => False)) ∧
+    (∀ r', pluginStep req res (.uuid u) r = .ok r' →
+      ∃ ou du out', uuidProcess u true (.obj (("request", req) :: rest)) = .ok out' ∧
+        r'.originUuid = some ou ∧ r'.destinationUuid = some du ∧
+        out'.get? "origin_vertex_uuid" = some (.str ou) ∧ out'.get? "destination_vertex_uuid" = some (.str du)) := by
+  have hg : getOdVertexIds (.obj (("request", req) :: rest)) = getOdVertexIds (.obj [("request", req)]) := by
+    simp [getOdVertexIds, Json.get?, lookup_cons]
+  have hl : uuidLookup u (.obj (("request", req) :: rest)) = uuidLookup u (.obj [("request", req)]) := by
+    simp only [uuidLookup, hg]
+  constructor
+  · intro x hx
+    simp only [pluginStep] at hx
+    cases hu : uuidLookup u (.obj [("request", req)]) with
+    | error y =>
+      simp only [hu] at hx
+      injection hx with hx
+      simp [uuidProcess, hl, hu, hx]
+    | ok p => obtain ⟨a, b⟩ := p; simp [hu] at hx
+  · intro r' hr'
+    obtain ⟨ou, du, hlk, hr⟩ := pluginStep_uuid req res u r r' hr'
+    cases hp : uuidProcess u true (.obj (("request", req) :: rest)) with
+    | ok out' =>
+      obtain ⟨o, d, ou', du', hg', ho, hd, g1, g2, _⟩ := uuid_attached_are_stored u _ out' hp
+      obtain ⟨o2, d2, hg2, ho2, hd2⟩ := uuidLookup_ok u _ ou du hlk
+      rw [hg, hg2] at hg'
+      injection hg' with hg'
+      injection hg' with e1 e2
+      subst e1; subst e2
+      rw [ho2] at ho; rw [hd2] at hd
+      injection ho with ho; injection hd with hd
+      subst ho; subst hd
+      exact ⟨ou, du, out', rfl, by rw [hr], by rw [hr], g1, g2⟩
+    | err e =>
+      exfalso
+      simp only [uuidProcess, Bool.not_true, Bool.false_eq_true, if_false, hl, hlk] at hp
+      simp [Json.indexAssign] at hp
+    | panic => exact (uuid_never_panics u true _ hp).elim
 
 -- non-vacuity (string-to-number parsing does not reduce in the kernel, so the two JSON numbers are taken as
 -- given): ids 2 and 0 of a three-row table; a destination beyond the table; a query without destination
@@ -843,7 +998,8 @@ theorem response_has_route_or_is_error (req : Json) (res : SearchResult) (plugin
   | error x => exact Or.inl ⟨x, rfl⟩
   | ok resp => exact Or.inr ⟨resp, rfl, runPlugins_sets_route req res cfg plugins hp {} resp h⟩
 
-/-- a failed search is an error response, whatever the plugins -/
+/-- a failed search is an error response, whatever the plugins (restates the first arm of
+`apply_output_processing` / `create_initial_output`) -/
 theorem failed_search_is_error_response (req : Json) (plugins : List Plugin) :
     applyOutputProcessing req none plugins = .error .search := rfl
 
@@ -858,6 +1014,27 @@ theorem empty_route_is_error_response (req : Json) (res : SearchResult) (plugins
     simp only [pluginStep, traversalProcess, hf, hx]
     exact ⟨_, rfl⟩
   exact runPlugins_error_of_mem req res _ {} h2 plugins hp {}
+
+/-- behaviour worth knowing (outside the literal statement of C20: nothing wrong is attached — nothing is
+delivered): a query without `destination_vertex` — the ordinary way to ask for a search tree — or an
+edge-oriented query (no `origin_vertex`) makes `get_od_vertex_ids` fail, so **any pipeline that contains the uuid
+plugin answers it with an error response and the rendered tree is discarded**, whatever the other plugins do -/
+theorem destinationless_query_with_uuid_plugin_is_error_response (kvs : List (String × Json))
+    (res : SearchResult) (plugins : List Plugin) (u : Uuids) (hp : Plugin.uuid u ∈ plugins)
+    (hq : Json.lookup kvs "origin_vertex" = none ∨ Json.lookup kvs "destination_vertex" = none) :
+    ∃ x, applyOutputProcessing (.obj kvs) (some res) plugins = .error x := by
+  have h2 : ∃ y, pluginStep (.obj kvs) res (.uuid u) {} = .error y := by
+    simp only [pluginStep, uuidLookup, getOdVertexIds, Json.get?, lookup_cons, if_true, Json.asObject?]
+    rcases hq with h | h
+    · simp only [h]; exact ⟨_, rfl⟩
+    · cases ho : Json.lookup kvs "origin_vertex" with
+      | none => exact ⟨_, rfl⟩
+      | some ov =>
+        simp only
+        cases ov.asU64? with
+        | none => exact ⟨_, rfl⟩
+        | some o => simp only [h]; exact ⟨_, rfl⟩
+  exact runPlugins_error_of_mem _ res _ {} h2 plugins hp {}
 
 /-- the default pipeline `traversal, summary, uuid`: everything the response carries, in one statement -/
 theorem default_pipeline_response (req : Json) (res : SearchResult) (cfg : TraversalCfg) (u : Uuids) (resp : Resp)
@@ -889,6 +1066,20 @@ theorem default_pipeline_response (req : Json) (res : SearchResult) (cfg : Trave
           subst h
           exact ⟨⟨r1, rfl, rfl, rfl⟩, rfl, rfl, o, d, ou, du, rfl, ho, hd, rfl, rfl⟩
 
+-- non-vacuity of `default_pipeline_response` / `response_uuids_are_stored` (string-to-number parsing does not
+-- reduce in the kernel, so the two JSON numbers are taken as given; `#eval` on `.num "2" 0`, `.num "0" 0` and the
+-- differential run exercise the closed instance)
+example (two zero : Json) (h2 : two.asU64? = some 2) (h0 : zero.asU64? = some 0) :
+    applyOutputProcessing (.obj [("origin_vertex", two), ("destination_vertex", zero)])
+      (some { routes := [[⟨1, 0, 0, []⟩]], trees := [] })
+      [.traversal { geoms := tableOf [[⟨1, 2⟩], [⟨3, 4⟩]], route := some .edgeId, tree := none }, .summary,
+       .uuid (uuidTableOf ["a", "b", "c"])] =
+    .ok { route := some (.one (.edgeIds [1])), routeEdges := some 1, treeSizeCount := some 0,
+          originUuid := some "c", destinationUuid := some "a" } := by
+  simp [applyOutputProcessing, runPlugins, pluginStep, traversalProcess, mapExcept, constructRouteOutput,
+    generateRouteOutput, shape, summaryProcess, routeEdgesCount, treeSizeCount, uuidLookup, getOdVertexIds,
+    Json.get?, Json.lookup, Json.asObject?, h2, h0, uuidTableOf]
+
 /-- the identifiers in a response of the default pipeline are `table[origin_vertex]`, `table[destination_vertex]`
 of the request -/
 theorem response_uuids_are_stored (req : Json) (res : SearchResult) (cfg : TraversalCfg) (u : Uuids) (resp : Resp)
@@ -908,8 +1099,8 @@ theorem response_uuids_are_stored (req : Json) (res : SearchResult) (cfg : Trave
 
 /-! ### 6. summary counts -/
 
-/-- `route_edges` / `tree_size_count` are the numbers of entries rendered: for a single route the count is the
-length of the edge-id list, for a single tree the number of entries of any tree output -/
+/-- restates `summaryProcess` (the Rust lines are `routes.iter().map(|r| r.len()).sum()` and the same for trees);
+`summary_counts_single` below relates the counts to what the traversal plugin renders -/
 theorem summary_counts (res : SearchResult) (r : Resp) :
     (summaryProcess res r).routeEdges = some ((res.routes.map List.length).sum) ∧
     (summaryProcess res r).treeSizeCount = some ((res.trees.map List.length).sum) ∧
@@ -934,7 +1125,14 @@ example : ∃ x, applyOutputProcessing .null
       [.summary, .traversal { geoms := tableOf [[⟨1, 2⟩, ⟨3, 4⟩], [⟨5, 6⟩, ⟨7, 8⟩]], route := some .geoJson, tree := none }]
       = .error x := ⟨_, rfl⟩
 
-/-! ### 7. loading the lookup tables: every row in its place, or no table at all -/
+/-! ### 7. loading the lookup tables: every row in its place, or no table at all
+
+What these theorems are: statements about the first-party reader (`read_raw_file` + `from_file`) over an
+*abstract* file `{readable, intact, rows}` whose rows the third-party WKT parser has already classified.  "A
+rejected row is not skipped" is the defining clause `none :: _ => .error .io` of `parseRows`, "cut off" is the
+input flag `intact = false`; the theorems derive from these the index-exact table (`traversal_from_file_table`)
+and the all-or-nothing behaviour.  That real files behave like this record (line splitting, CRLF, gzip, what the
+WKT grammar rejects, a truncated gzip stream) is evidenced only by the differential run. -/
 
 /-- the geometry reader returns a table exactly when the file opens, decodes to its end and every row parses;
 the table then holds **every** row at its own index — a bad row is never skipped, so geometries never shift
@@ -1033,11 +1231,13 @@ example : (traversalFromFile { readable := true, intact := true, rows := [some [
 
 /-! ### 8. the configuration builders -/
 
-/-- the five configuration names denote the five formats, one each -/
+/-- the five configuration names denote the five formats, one each, in either accepted spelling: the plain
+string and serde's single-key map form `{"<name>": null}` -/
 theorem format_names_roundtrip (f : Fmt) :
-    Fmt.ofName? f.name = some f ∧ fmtParam (some (.str f.name)) = .ok (some f) := by
+    Fmt.ofName? f.name = some f ∧ fmtParam (some (.str f.name)) = .ok (some f) ∧
+    fmtParam (some (.obj [(f.name, .null)])) = .ok (some f) := by
   have h1 : Fmt.ofName? f.name = some f := by cases f <;> decide
-  exact ⟨h1, by simp [fmtParam, h1]⟩
+  exact ⟨h1, by simp [fmtParam, fmtOfName, h1], by simp [fmtParam, fmtOfName, h1]⟩
 
 theorem format_names_distinct (f g : Fmt) (h : f.name = g.name) : f = g := by
   have hf := (format_names_roundtrip f).1
@@ -1046,31 +1246,63 @@ theorem format_names_distinct (f g : Fmt) (h : f.name = g.name) : f = g := by
   rw [hf] at hg
   exact Option.some.inj hg
 
-/-- an absent key means "do not render"; a present key must be one of the five names -/
-theorem format_param (v : Option Json) (o : Option Fmt) (h : fmtParam v = .ok o) :
-    (v = none ∧ o = none) ∨ ∃ f, v = some (.str f.name) ∧ o = some f := by
-  unfold fmtParam at h
-  cases v with
-  | none => injection h with h; exact Or.inl ⟨rfl, h.symm⟩
-  | some j =>
-    cases j with
-    | str s =>
-      simp only at h
-      cases hn : Fmt.ofName? s with
-      | none => simp [hn] at h
-      | some f =>
-        simp only [hn] at h
-        injection h with h
-        have hs : f.name = s := by
-          unfold Fmt.ofName? at hn
-          have := List.find?_some hn
-          simpa using this
-        exact Or.inr ⟨f, by rw [hs], h.symm⟩
-    | null => simp at h
-    | bool b => simp at h
-    | num l b => simp at h
-    | arr xs => simp at h
-    | obj kvs => simp at h
+/-- a name resolves exactly when it is one of the five -/
+theorem format_of_name_ok_iff (s : String) (o : Option Fmt) :
+    fmtOfName s = .ok o ↔ ∃ f, f.name = s ∧ o = some f := by
+  unfold fmtOfName
+  cases hn : Fmt.ofName? s with
+  | none =>
+    simp only
+    constructor
+    · intro h; cases h
+    · rintro ⟨f, hf, _⟩
+      rw [← hf, (format_names_roundtrip f).1] at hn
+      cases hn
+  | some f =>
+    have hs : f.name = s := by
+      unfold Fmt.ofName? at hn
+      have := List.find?_some hn
+      simpa using this
+    simp only
+    constructor
+    · intro h; injection h with h; exact ⟨f, hs, h.symm⟩
+    · rintro ⟨f', hf', ho⟩
+      have : f' = f := format_names_distinct f' f (by rw [hf', hs])
+      rw [ho, this]
+
+/-- **the exact set of accepted values of the `route` / `tree` parameter** (model of
+`serde_json::from_value::<TraversalOutputFormat>`, checked differentially on strings, `null`, numbers, arrays and
+objects of every shape): an absent key means "do not render"; a present value is accepted iff it is one of the
+five names written as a string or as the single-key object `{"<name>": null}`; it then denotes that format.
+(An earlier version of this file claimed that only the five strings are accepted; that was false of the real
+code — `{"wkt": null}` builds a WKT plugin — and is corrected here and in the model.) -/
+theorem format_param_accepts_iff (v : Option Json) (o : Option Fmt) :
+    fmtParam v = .ok o ↔
+      ((v = none ∧ o = none) ∨
+       ∃ f, o = some f ∧ (v = some (.str f.name) ∨ v = some (.obj [(f.name, .null)]))) := by
+  constructor
+  · intro h
+    unfold fmtParam at h
+    split at h
+    · injection h with h; exact Or.inl ⟨rfl, h.symm⟩
+    · obtain ⟨f, hf, ho⟩ := (format_of_name_ok_iff _ o).1 h
+      exact Or.inr ⟨f, ho, Or.inl (by rw [hf])⟩
+    · obtain ⟨f, hf, ho⟩ := (format_of_name_ok_iff _ o).1 h
+      exact Or.inr ⟨f, ho, Or.inr (by rw [hf])⟩
+    · cases h
+  · rintro (⟨rfl, rfl⟩ | ⟨f, rfl, (rfl | rfl)⟩)
+    · rfl
+    · exact (format_names_roundtrip f).2.1
+    · exact (format_names_roundtrip f).2.2
+
+-- the accepted map form, and shapes that look similar but are rejected
+example : (fmtParam (some (.obj [("wkt", .null)]))).toOption = some (some .wkt) := by decide
+example : (fmtParam (some (.obj [("geo_json", .null)]))).toOption = some (some .geoJson) := by decide
+example : (fmtParam (some (.obj [("wkt", .bool false)]))).toOption = none := by decide
+example : (fmtParam (some (.obj [("wkt", .null), ("wkb", .null)]))).toOption = none := by decide
+example : (fmtParam (some (.obj []))).toOption = none := by decide
+example : (fmtParam (some .null)).toOption = none := by decide
+example : (fmtParam (some (.str "WKT"))).toOption = none := by decide
 
 /-- a traversal plugin is built only from an existing file whose every row parses and from known format names; it
 then is exactly the plugin `from_file` gives for those formats (so `traversal_from_file_table` applies) -/
@@ -1145,8 +1377,9 @@ theorem failed_search_leaves_output (cfg : TraversalCfg) (a : Bool) (u : Uuids) 
     (match uuidProcess u false out with | .ok j => j = out | _ => False) := by
   simp [traversalProcessOn, summaryProcessOn, uuidProcess]
 
-/-- on an object (or `null`) the direct call does what the pipeline model does, for every combination of
-configured route / tree formats -/
+/-- on an object (or `null`) the direct call of the **traversal** plugin does what the pipeline model does, for
+every combination of configured route / tree formats (the corresponding statements for the other two plugins are
+`uuid_direct_matches_pipeline` and, for the two counts only, `summary_process_on_object`) -/
 theorem traversal_process_on_object (cfg : TraversalCfg) (sr : SearchResult) :
     traversalProcessOn cfg (some sr) true =
       match traversalProcess cfg sr {} with
